@@ -78,7 +78,8 @@ CHECKS = {
              "monitor over all emitted vectors records every ordered metric pair and fires if both orders are ever seen (all "
              "818 pairs observed per run); re-parse idempotence; a==b compared with the canonical-key oracle on same-spelling, "
              "one-metric-difference (every metric), ND-vs-absent, 3.0-vs-3.1, cross-version and random pairs; hash/set "
-             "behaviour; comparisons with 12 foreign values must be False without raising.",
+             "behaviour; comparisons with 12 foreign values must be False without raising; every pair is also compared with "
+             "one operand an instance of a trivial user subclass (both operand orders, !=, hash).",
         note="'One fixed order' is judged as consistency of the observed order, not against a particular order (C08 pins it).",
         ref="3 C07"),
     "C08": dict(
@@ -186,7 +187,9 @@ CHECKS = {
              "13-15 variants on a fresh object (an interference A->B shows on that pair); random sequences of 5-40 calls with "
              "clear/overwrite/insert/delete mutations of returned as_json() dictionaries and constructions of other objects "
              "interleaved; every result must equal (value and type; key order for sort=True) the fresh-object result. "
-             "Internal attribute changes are counted, not judged.",
+             "The public per-instance state of the pinned commit (metrics, original_metrics, *_score, sub-scores) is read on "
+             "a fresh object and after every accessor pair, in rotated reading orders, and must not change; private "
+             "attribute changes are counted, not judged.",
         note="Sequences are unbounded: pairs are complete per sampled vector, longer interference chains are sampled.",
         ref="3 C18"),
     "C19": dict(
@@ -211,9 +214,14 @@ CHECKS = {
              "interpreters; transcripts (error class names, scores, ratings, vectors, JSON items with key order for "
              "sort=True, extraction results, builder results and output, CLI output/exit) must equal /venv's. 18 command "
              "lines are also run as real subprocesses per interpreter. Import failure = violation; missing interpreter = "
-             "inconclusive. Found and fixed F4 (2.7 dispatch) and a 2.7 JSON whitespace divergence; F5 (2.7 non-ASCII argv) "
-             "is an open known finding.",
-        note="Only the interpreters installed in this image, one platform. sort=False key order not compared.",
+             "inconclusive. The corpus includes score spellings and blanks whose treatment by the builtins float()/strip() "
+             "follows the interpreter (underscores, every script's digits, exotic blanks), code points whose Unicode properties "
+             "differ between the interpreters' databases, default-protocol pickle / copy round trips, and the process-global "
+             "state before import and after the corpus. Found and fixed F4 (2.7 dispatch), a 2.7 JSON whitespace divergence, "
+             "F8 (hash-order of extraction results) and F10 (2.7 answers handled as bytes); open known findings: F5 (2.7 "
+             "non-ASCII argv), F7 (2.7 unsorted key order), F9 (from_rh_vector follows the interpreter's float()), the U+180E "
+             "remainder of F10 -- each keyed by its mechanism.",
+        note="Only the interpreters installed in this image, one platform.",
         ref="3 C20"),
 }
 
